@@ -7,7 +7,7 @@ MCAvailAll == SUBSET Cells
 
 \* K = 2: everything minus a withheld rectangle R x C (3x3 is the smallest stopping set of the 4x4 code),
 \* optionally with one more cell withheld / one cell of the rectangle served
-MCSubs == {{}, {1}, {0, 1}, {0, 2, 3}, {1, 2, 3}, {0, 1, 2, 3}}
+MCSubs == {{}, {0, 1}, {1, 2, 3}, {0, 1, 2, 3}}
 MCRects == {Cells \ (R \X C) : R \in MCSubs, C \in MCSubs}
 MCAvailRect == MCRects
 MCAvailRectPlus == MCRects \cup {A \ {<<2, 2>>} : A \in MCRects} \cup {A \cup {<<1, 1>>} : A \in MCRects}
@@ -15,12 +15,12 @@ MCAvailRectPlus == MCRects \cup {A \ {<<2, 2>>} : A \in MCRects} \cup {A \cup {<
 
 MCCorruptNone == {NoCell}
 MCCorrupt1 == {NoCell, <<0, 0>>, <<1, 1>>}
-MCCorrupt2 == {NoCell, <<0, 0>>, <<1, 2>>, <<3, 3>>}
+MCCorrupt2 == {NoCell, <<1, 2>>}
 MCCorruptAll == Cells \cup {NoCell}
 
 \* terminal summaries of the session: the binding checks that what the real Retrieve did is one of these
 PrintCase ==
-    (outcome # "none") =>
+    (outcome # "none" /\ inflight = {} /\ ~sig) =>
         PrintT(<<"CASE", ToJson([k |-> K, avail |-> Enc(avail),
                                  corrupt |-> IF corrupt = NoCell THEN 999 ELSE corrupt[1] * W + corrupt[2],
                                  outcome |-> outcome, nq |-> Cardinality(requested),
